@@ -790,6 +790,18 @@ impl<'a> ViewDeserializer<'a> {
     }
 }
 
+/// Message of an error raised while deserializing a nested view.
+///
+/// `Display` of [Error] is its `Debug` representation, which escapes the message
+/// of a wrapped JSON error once more on every level of nesting (doubling its
+/// size each time), so the message of the JSON error is used directly.
+fn nested_error_message(err: &Error) -> String {
+    match err {
+        Error::Json(err) => err.to_string(),
+        err => err.to_string(),
+    }
+}
+
 impl<'de> de::DeserializeSeed<'de> for &ViewDeserializer<'_> {
     type Value = ArcView<'static>;
 
@@ -832,10 +844,12 @@ impl<'de> de::DeserializeSeed<'de> for &ViewDeserializer<'_> {
                     .arc()
             }
             "flex" => Flex::from_json_value(self, &value)
-                .map_err(|err| de::Error::custom(format!("[Flex] {err}")))?
+                .map_err(|err| de::Error::custom(format!("[Flex] {}", nested_error_message(&err))))?
                 .arc(),
             "container" => container::from_json_value(self, &value)
-                .map_err(|err| de::Error::custom(format!("[Container] {err}")))?
+                .map_err(|err| {
+                    de::Error::custom(format!("[Container] {}", nested_error_message(&err)))
+                })?
                 .arc(),
             "glyph" => GlyphDeserializer {
                 colors: self.colors,
@@ -856,7 +870,7 @@ impl<'de> de::DeserializeSeed<'de> for &ViewDeserializer<'_> {
             .map_err(|err| de::Error::custom(format!("[RGBA] {err}")))?
             .arc(),
             "tag" => tag_from_json_value(self, &value)
-                .map_err(|err| de::Error::custom(format!("[Tag] {err}")))?
+                .map_err(|err| de::Error::custom(format!("[Tag] {}", nested_error_message(&err))))?
                 .arc(),
             "ref" => {
                 let uid = value.get("ref").and_then(|v| v.as_i64()).ok_or_else(|| {
